@@ -25,6 +25,7 @@ func c11(c *Ctx) {
 	c11R2(c, "R2")
 	c11R3(c, "R3")
 	c11R4(c, "R4")
+	sConfigClone(c, "R4/S-CFGCLONE")
 	sDelete(c, "R5/S-DELETE")
 }
 
